@@ -323,7 +323,9 @@ class MinGenSet():
         # A generating set never needs more than (number of distinct values) + 1 elements,
         # plus (parts - 1) per partition constraint.
         upper = len(set(self.numbers)) + 1 + sum(max(len(c) - 1, 0) for c in (self.partition_constraints or []))
-        for k in range(self.lowerbound, max(self.lowerbound, upper) + 1):
+        # (a generating set has at least one element; the model for k = 0 has no variables and the solver gives no verdict on it)
+        first_k = max(self.lowerbound, 1)
+        for k in range(first_k, max(first_k, upper) + 1):
             self._create_solver(k=k)
             self.solver.optimize()
 
